@@ -25,6 +25,7 @@ from ..expr.lift import Lifter, equal
 from ..stencil.alg import Aff, Lin, Rat, idx_key, fmt_atom, Fr
 from ..stencil.interp import Interp, subst_lin
 from ..stencil.kernels import kernel_params
+from ..core.template import find
 
 LEVEL = 'proof'
 CORE = 'emg3d/core.py'
@@ -346,6 +347,50 @@ def sc_tables(ctx):
     # transverse interpolator arguments
     rgp = [n for n in ast.walk(pf) if isinstance(n, ast.Call) and
            ast.unparse(n.func) == 'RegularGridProlongator']
+    if len(rgp) != 3:
+        # constructions behind a module-level helper: resolve the wrapper
+        rgp = []
+        for n in ast.walk(pf):
+            if isinstance(n, ast.Call) and isinstance(n.func, ast.Name) and \
+                    n.func.id in {f.name for f in sm.tree.body
+                                  if isinstance(f, ast.FunctionDef)}:
+                w = sm.func(n.func.id)
+                ctor = [c for c in ast.walk(w) if isinstance(c, ast.Call) and
+                        ast.unparse(c.func) == 'RegularGridProlongator']
+                if len(ctor) != 1:
+                    continue
+                wps = au.params(w)
+                if [ast.unparse(x) for x in ctor[0].args] != wps:
+                    continue
+                rets = [r for r in ast.walk(w) if isinstance(r, ast.Return)]
+                direct = all(r.value is ctor[0] for r in rets)
+                ok = direct
+                why = ''
+                if not direct:
+                    # memoised: the key must determine every node vector
+                    keys = find('_k_ = _t_', w)
+                    kt = [ast.parse(b['_t_'], mode='eval').body
+                          for n_, b in keys]
+                    kt = [t for t in kt if isinstance(t, ast.Tuple)]
+                    full = set()
+                    for t in kt:
+                        for e in t.elts:
+                            txt = ast.unparse(e).replace(' ', '')
+                            for p_ in wps:
+                                if txt in (f'{p_}.tobytes()', f'tuple({p_})',
+                                           f'{p_}.data.tobytes()',
+                                           f'tuple({p_}.tolist())'):
+                                    full.add(p_)
+                    ok = set(wps) <= full
+                    why = (f'`{w.name}` returns a remembered interpolator '
+                           'whose key does not contain the node vectors '
+                           f'{sorted(set(wps) - full)} themselves: another '
+                           'grid with the same size and extent gets the '
+                           'weights of the first')
+                ctx.check('C04.P.transverse', f'prolongation: interpolator '
+                          f'via `{w.name}` belongs to the nodes of this call',
+                          ok, why, ctx.where(sm, w))
+                rgp.append(n)
     ctx.anchor(len(rgp) == 3, 'three RegularGridProlongator constructions')
     want_args = [('y', 'z'), ('x', 'z'), ('x', 'y')]
     rgp.sort(key=lambda c: c.lineno)
